@@ -51,6 +51,15 @@ def tok(x):
     return tokenize(x)
 
 
+def _same_crs_by_pyproj(sa: str, sb: str) -> bool:
+    import pyproj
+
+    try:
+        return bool(pyproj.CRS.from_user_input(sa).equals(pyproj.CRS.from_user_input(sb)))
+    except Exception:
+        return False
+
+
 def crs_str_of(x):
     """Spelling of the CRS(es) carried by a value (for the K1 classifier)."""
     from odc.geo.crs import CRS
@@ -130,6 +139,8 @@ def families(rng: random.Random):
     looked_up = CRS(la_custom)
     looked_up.epsg  # noqa: B018
     fams["CRS"] += [looked_up, CRS(la_reg), CRS(la_custom)]
+    # user-defined CRSs no authority lists: different from each other and from everything else
+    fams["CRS"] += [CRS("+proj=sinu +lon_0=0 +x_0=0 +y_0=0 +R=6371007.181 +units=m +no_defs"), CRS("+proj=laea +lat_0=52 +lon_0=20 +x_0=0 +y_0=0 +ellps=GRS80 +units=m +no_defs"), CRS("+proj=longlat +ellps=GRS80 +no_defs")]
     # GCP boxes: shared mapping => equal; rebuilt mapping with equal content => (K2) unequal by identity
     pix = [xy_(px, py) for px in (0, 50, 100) for py in (0, 40, 80)]
     wld = lambda dx=0.0: [xy_(100 + 0.1 * p.x + dx, -30 - 0.1 * p.y) for p in pix]
@@ -175,6 +186,11 @@ def relation_check(mon: Monitor, name: str, vals) -> None:
         if e2 is None and r is not None:
             mon.check(bool(ne) == (not bool(r)), f"{name}.ne", {"a": repr(vals[i])[:150], "b": repr(vals[j])[:150], "eq": r, "ne": ne}, key="ne-inconsistent")
     desc = lambda i: repr(vals[i])[:160]
+    if name == "CRS":
+        # what "equal" means for a CRS is pyproj's call, not the library's: the relation must be the one pyproj computes
+        for i, j in itertools.combinations(range(n), 2):
+            want = bool(vals[i].proj.equals(vals[j].proj))
+            mon.check(eq[i][j] == want, "CRS.eq-vs-pyproj", lambda: {"a": desc(i), "b": desc(j), "a==b": eq[i][j], "pyproj_equals": want}, key="crs-eq-differs-from-pyproj", sig=hsig("ceq", tokens[i], tokens[j]))
     for i in range(n):
         mon.check(eq[i][i] is True, f"{name}.reflexive", lambda: {"a": desc(i)}, key="not-reflexive", sig=hsig(name, "r", tokens[i]))
     for i, j in itertools.combinations(range(n), 2):
@@ -182,7 +198,7 @@ def relation_check(mon: Monitor, name: str, vals) -> None:
         mon.check(eq[i][j] == eq[j][i], f"{name}.symmetric", lambda: {"a": desc(i), "b": desc(j), "a==b": eq[i][j], "b==a": eq[j][i]}, key="not-symmetric", sig=sig, sample={"a": desc(i), "b": desc(j), "equal": eq[i][j]})
         if eq[i][j] and hashes[i] is not None and hashes[j] is not None:
             sa, sb = crs_str_of(vals[i]), crs_str_of(vals[j])
-            spelled = sa is not None and sb is not None and sa != sb
+            spelled = sa is not None and sb is not None and sa != sb and _same_crs_by_pyproj(sa, sb)  # K1 is about two spellings of the SAME CRS, nothing else
             mon.check(hashes[i] == hashes[j], f"{name}.eq-hash", lambda: {"a": desc(i), "b": desc(j), "crs_str": [str(sa)[:40], str(sb)[:40]]},
                       key="crs-hash-spelling" if spelled else "eq-hash", cls="spelling-differs" if spelled else "same-spelling", sig=sig)
         if eq[i][j] is False and tokens[i] is not None and tokens[j] is not None:
